@@ -195,7 +195,7 @@ SIG = {
     "xrand.Sample": ("XSample", ["z", "z", "z"]), "xrand.SampleSlice": ("XSampleSlice", ["zl", "z", "z"]),
     "xrand.SampleIterator": ("XSampleIterator", ["zl", "z", "z"]), "xrand.Shuffle": ("XShuffle", ["zl", "z"]),
 }
-ORACLE_ONLY = {"xrand.Freq"}
+ORACLE_ONLY = {"xrand.Freq", "xslices.InsertAliased"}
 TRACE_WHICH = {"sample": 0, "slice": 1, "iterator": 2, "shuffle": 3}
 
 
@@ -673,6 +673,12 @@ def oracle_call(op, ob):
                 bad("unexpected-panic", "panicked (%s)" % ob.get("msg"))
             elif len(r[1]) != min(k, n) or len(set(r[1])) != len(r[1]) or any(v not in dom for v in r[1]):
                 bad("wrong-structure", "returned %r" % (r[1],))
+    elif fn == "xslices.InsertAliased":
+        sl, idx, lo, hi = op[1], op[3], op[4], op[5]
+        want = sl[:idx] + sl[lo:hi] + sl[idx:]
+        if r != ["list", want]:
+            bad("aliased-values", "xslices.Insert(s, %d, s[%d:%d]...) with s = %r (spare capacity %d) returned %r, want %r"
+                % (idx, lo, hi, sl, len(op[2]), r, want))
     elif fn == "xrand.Freq":
         which, n, k, draws = a[0], a[1], a[2], a[3]
         counts = r[1]
@@ -847,6 +853,9 @@ class XSlicesSpec(PureSpec):
         return [["xslices.Runs", [1, 2, 2], ["keyeq", 1]], ["xslices.Runs", [1], ["keyeq", 1]], ["xslices.Runs", [1, 1, 2], ["keyeq", 1]],
                 ["xslices.Chunk", [1, 2], -2], ["xslices.Chunk", [1, 2, 3], -5], ["xslices.Chunk", [], -1], ["xslices.Chunk", [1, 2], 0],
                 ["xslices.Chunk", [1, 2], MAXINT], ["xslices.Chunk", [1, 2, 3], MAXINT - 1], ["xslices.Chunk", [1], MAXINT], ["xslices.Chunk", [1, 2, 3], 2],
+                ["xslices.InsertAliased", [10, 11, 12, 13, 14], [9] * 11, 1, 2, 4], ["xslices.InsertAliased", [10, 11, 12, 13, 14], [9] * 11, 3, 0, 5],
+                ["xslices.InsertAliased", [10, 11, 12, 13, 14], [], 1, 2, 4], ["xslices.InsertAliased", [1, 2, 3], [9, 9, 9], 0, 1, 3],
+                ["xslices.InsertAliased", [1, 2, 3, 4], [9] * 8, 2, 2, 4], ["xslices.InsertAliased", [1, 2, 3, 4], [9] * 8, 4, 0, 2],
                 ["xslices.Shrink", [1, 2, 3], [9, 9], MAXINT], ["xslices.Shrink", [1], [], MAXINT - 1], ["xslices.Shrink", [1, 2, 3], [9], MAXINT - 3]]
 
     def universes(self, rng, tier):
